@@ -4,6 +4,7 @@ import (
 	"encoding/json"
 	"fmt"
 	"net/http"
+	"strings"
 
 	"pikeverif/world"
 )
@@ -21,7 +22,9 @@ type kcCase struct {
 
 // KeyCodec runs the C06 input-side cases
 func KeyCodec(w *world.World, raws []json.RawMessage) ([]interface{}, error) {
-	w.Configure([]world.DispCfg{{Name: "kc", Size: 0, HfpTTL: 300}})
+	// with a store: the key also names the persisted record
+	w.Configure([]world.DispCfg{{Name: "kc", Size: 0, HfpTTL: 300, HasStore: true}})
+	long := strings.Repeat("x", 1100)
 	w.Policy = func(ri *world.ReqInfo, req *http.Request) world.Outcome {
 		h := http.Header{}
 		h.Set("Cache-Control", "max-age=600")
@@ -41,11 +44,12 @@ func KeyCodec(w *world.World, raws []json.RawMessage) ([]interface{}, error) {
 		// every case lives in its own name space: a prefix segment in front of the URI
 		pre := fmt.Sprintf("/kc%d", i)
 		do := func(t kcTriple) map[string]interface{} {
-			r := w.DoCase("", "kc", t.M, t.H, pre+t.U, nil, nil)
+			r := w.DoCase("", "kc", t.M, t.H, pre+strings.Replace(t.U, "LONG", long, 1), nil, nil)
 			raw := r.Header.Get("X-Echo-Raw")
 			if len(raw) >= len(pre) {
 				raw = raw[len(pre):]
 			}
+			raw = strings.Replace(raw, long, "LONG", 1)
 			return map[string]interface{}{"label": r.Label, "ver": r.Ver, "contacts": r.Contacts,
 				"echo": []string{r.Header.Get("X-Echo-Method"), r.Header.Get("X-Echo-Host"), raw}}
 		}
